@@ -1,6 +1,6 @@
 ---------------------------- MODULE ParamsTrace ----------------------------
 (* Validates what the real constructors, GenModuli, codecs and exported parameter sets did against Params.   *)
-EXTENDS Params, Json
+EXTENDS Params, Json, BigNat
 Trace == ndJsonDeserialize("trace.ndjson")
 VARIABLE l
 Ev == Trace[l]
@@ -9,8 +9,15 @@ TrGen == Ev.ev = "gen" /\ ~Ev.panic /\ GenOK(Ev)
 TrTrip == Ev.ev = "trip" /\ ~Ev.panic /\ ~Ev.err /\ Ev.equal
 TrSec == Ev.ev = "sec" /\ ~Ev.panic /\ ~Ev.err /\ SecOK(Ev)
 TrDerived == Ev.ev = "derived" /\ DerivedOK(Ev)
+\* lazy-accumulation margin of a chain: m = floor(2^64 / max(moduli)), i.e. m * max <= 2^64 < (m + 1) * max
+TwoTo64 == <<0, 0, 0, 0, 0, 16>>
+MarginOK(e) == \E i \in 1..Len(e.mods) :
+                  /\ \A j \in 1..Len(e.mods) : ~BNLess(e.mods[i], e.mods[j])
+                  /\ ~BNLess(TwoTo64, BNMul(e.m, e.mods[i]))
+                  /\ BNLess(TwoTo64, BNMul(BNAdd(e.m, <<1>>), e.mods[i]))
+TrMargin == Ev.ev = "margin" /\ MarginOK(Ev)
 TrReset == Ev.ev = "reset"
-TraceNext == l <= Len(Trace) /\ l' = l + 1 /\ (TrLit \/ TrGen \/ TrTrip \/ TrSec \/ TrDerived \/ TrReset)
+TraceNext == l <= Len(Trace) /\ l' = l + 1 /\ (TrLit \/ TrGen \/ TrTrip \/ TrSec \/ TrDerived \/ TrMargin \/ TrReset)
 TraceInit == l = 1 /\ TLCSet(1, 1)
 TraceSpec == TraceInit /\ [][TraceNext]_l
 Progress == TLCSet(1, IF TLCGet(1) > l THEN TLCGet(1) ELSE l)
